@@ -66,6 +66,10 @@ class InitialStateMixin:
                 )
         if not fluent_exp.type.is_compatible(value_exp.type):
             raise UPTypeError("Initial value assignment has not compatible types!")
+        if not value_exp.is_constant():
+            raise UPExpressionDefinitionError(
+                f"The initial value of {fluent_exp} must be a constant: {value_exp} is not."
+            )
         self._initial_value[fluent_exp] = value_exp
 
     def initial_value(
